@@ -842,6 +842,41 @@ async fn long_drain() -> (Option<bool>, Option<f64>, Option<f64>, Option<String>
     (in_flight.map(|f| f && transfer_at.is_some()), transfer_at, returned, if in_flight == Some(true) { None } else { Some("the client was not in flight when shutdown was requested".into()) })
 }
 
+/// One in-flight connection's task dies (its status adapter panics) after shutdown was requested:
+/// that is this connection's problem only. The other in-flight client still gets its Transfer and
+/// listen() returns after it, not before.
+async fn panicking_sibling() -> (Option<bool>, Option<f64>, Option<f64>, Option<String>) {
+    let mut adapters = default_adapters(&DirectSpec::default());
+    adapters.status_latency = Duration::from_millis(800);
+    adapters.status_panics_for = Some("panic.example.org".into());
+    let direct = start_direct(DirectSpec { timeout: Duration::from_secs(10), discovery_latency: Duration::from_millis(2500), adapters: Some(adapters), ..Default::default() }).await;
+    let Ok(end) = TcpEnd::connect(direct.addr, None).await else { return (None, None, None, Some("connect failed".into())) };
+    let Ok(doomed) = TcpEnd::connect(direct.addr, None).await else { return (None, None, None, Some("connect failed".into())) };
+    {
+        let mut b = scripts::handshake(1, "panic.example.org", direct.addr.port(), 770).frame();
+        b.extend_from_slice(&Pkt::StatusRequest.frame());
+        doomed.send(&b);
+    }
+    let claimed = Ident { name: "Bystander".into(), uuid: 4343 };
+    let plan = scripts::plan(scripts::login_script(2, "drain.example.org", 25565, &claimed, "en_us"), false, [6u8; 16], Duration::from_secs(12));
+    let stop = direct.stop.clone();
+    let canceller = tokio::spawn(async move {
+        // both connections are in flight, the panic is still half a second away
+        tokio::time::sleep(Duration::from_millis(300)).await;
+        stop.cancel();
+        Instant::now()
+    });
+    let started = Instant::now();
+    let log = Client::new(&end, plan).run().await;
+    let cancelled = canceller.await.unwrap_or_else(|_| Instant::now());
+    let transfer_at = log.first("Transfer").map(|r| (started + Duration::from_nanos(r.t_ns)).duration_since(cancelled).as_secs_f64());
+    let in_flight = log.first("EncryptionRequest").map(|r| started + Duration::from_nanos(r.t_ns) < cancelled);
+    let returned = direct.wait_returned(Duration::from_secs(10) + RETURN_SLACK).await.map(|t| t.saturating_duration_since(cancelled).as_secs_f64());
+    end.kill();
+    doomed.kill();
+    (in_flight.map(|f| f && transfer_at.is_some()), transfer_at, returned, if in_flight == Some(true) { None } else { Some("the bystander was not in flight when shutdown was requested".into()) })
+}
+
 /// The wiring of the stop signal itself (src/lib.rs): the application is started the way its binary
 /// starts it (`passage::start` in a child process of this monitor) and is sent SIGINT while one
 /// connection is stalled mid-login and one status client is between Status Response and Ping.
@@ -966,6 +1001,24 @@ pub async fn run_prop(cli: &Cli) -> i32 {
         let late = LateLog::start(Duration::from_millis(5));
         flood_family(cli, &mut report, &late).await;
         sigint_family(cli, &mut report).await;
+        // a connection task that dies during the drain
+        let (ok, transfer_at, returned, problem) = panicking_sibling().await;
+        let detail = json!({"transfer_received_s_after_cancel": transfer_at, "listen_returned_s_after_cancel": returned, "timeout_s": 10, "backend_s": 2.5, "sibling_panics_s_after_cancel": 0.5});
+        if let Some(p) = problem {
+            report.inconclusive(&format!("panicking sibling: {p}"));
+        } else {
+            report.eval(Some("panicking-sibling/timeout-10s/backend-2.5s"));
+            report.count("drains during which another connection's task panicked", 1);
+            report.sample(json!({"case": "panicking sibling", "observed": detail}));
+            if ok != Some(true) {
+                report.violation("b-inflight-client-lost-transfer/panicking-sibling", "a cooperating client that was in flight did not receive its Transfer after another connection's task had panicked during the drain", detail.clone());
+            }
+            match (transfer_at, returned) {
+                (Some(t), Some(r)) if r + 0.05 < t => report.violation("c-listen-returned-before-inflight-finished/panicking-sibling", "listen() returned before the in-flight client had received its Transfer (another connection's task had panicked)", detail.clone()),
+                (_, None) => report.violation("d-listen-not-returned-within-timeout+5s/panicking-sibling", "listen() did not return within timeout + 5 s", detail.clone()),
+                _ => {}
+            }
+        }
     }
     if let Some(h) = long {
         match h.await {
